@@ -19,6 +19,7 @@ extern int w_nclocks, w_clockpos;
 extern int w_tracing;
 extern int w_in_lib;
 extern long w_fail_countdown;
+extern int w_fail_persist;
 extern int w_fail_hit;
 extern long w_lib_allocs;
 
